@@ -20,10 +20,12 @@ SC_SHARED = ('entriesDict', 'entriesList', 'firstIndex', 'lastIndex')
 SC_CALLS = ('bytes', 'len', 'time.time', 'session.valid', 'KeyError')
 
 for _fn in ('__getitem__', '__setitem__'):
+    # the clock value is stored with the entry and the list must stay time-ordered (what _purge relies on): reading the
+    # clock belongs to the critical section that appends / compares
     REG.add_task(LockDisciplineTask(LockSpec(SC + _fn, 'lock', SC_SHARED, allowed_calls=SC_CALLS,
-                                             held_helpers=('_purge',))))
+                                             held_helpers=('_purge',), atomic_calls=('time.time',))))
 REG.add_task(LockDisciplineTask(LockSpec(SC + '_purge', 'lock', SC_SHARED, allowed_calls=SC_CALLS,
-                                         entry_held=True)))
+                                         entry_held=True, atomic_calls=('time.time',))))
 REG.add_task(EncapsulationTask('SessionCache', SC_SHARED + ('_purge',),
                                [SC + '__getitem__', SC + '__setitem__', SC + '_purge'], [SC + '__init__']))
 
